@@ -221,7 +221,13 @@ fn run_clone(ctx: &mut Ctx) {
     }
     let ob = clonefam::execute_with(&f, presented.as_deref(), &extra);
     let outcome = ob.outcome.clone().unwrap();
-    if matches!(outcome, crate::cli::Outcome::Panic(_) | crate::cli::Outcome::StepBudget | crate::cli::Outcome::Deadlock) {
+    // O4 (DESIGN.md section 6): the aliased seed grows while it is scanned and the chunker panics
+    // on its stale scan position; what the clone opened and wrote until then is still judged
+    let o4 = extra.alias_output_as_seed.is_some() && matches!(&outcome, crate::cli::Outcome::Panic(p) if p.contains("bitar/src/chunker/"));
+    if o4 {
+        simkit::count("observation:O4-chunker-polled-again-on-grown-seed");
+    }
+    if !o4 && matches!(outcome, crate::cli::Outcome::Panic(_) | crate::cli::Outcome::StepBudget | crate::cli::Outcome::Deadlock) {
         ctx.fail(&format!("clone-outcome:{}", outcome.class()), format!("clone ended with {}; {}", outcome.short(), f.desc));
         return;
     }
